@@ -4,6 +4,9 @@
 // file, compiled only under the build tag "verif").
 package queue
 
+// Every function under contract in this package also serves the properties that depend on the whole package.
+//@ package-props C20
+
 // What protobuf decoding (or a hand-built configuration) guarantees for a value message:
 // a set oneof holds a non-nil wrapper whose message exists; same for the distribution oneofs.
 //@ pred IntArmWf(m *fpb.Value) := isa(m.Value.(*fpb.Value_IntValue)) && m.Value.(*fpb.Value_IntValue).IntValue != nil ==>
